@@ -34,14 +34,16 @@ def ensure_engine():
         for f in files:
             if f.endswith(".go") or f in ("go.mod", "go.sum"):
                 newest = max(newest, os.path.getmtime(os.path.join(root, f)))
-    if os.path.exists(binp) and os.path.getmtime(binp) >= newest:
+    gd = os.path.join(VERIF, "bin", "grammardump")
+    if os.path.exists(binp) and os.path.getmtime(binp) >= newest and os.path.exists(gd) and os.path.getmtime(gd) >= newest:
         return
     os.makedirs(os.path.join(VERIF, "bin"), exist_ok=True)
-    r = subprocess.run(["go", "build", "-o", binp, "./cmd/symx"], cwd=os.path.join(VERIF, "engine"), env=GOENV,
-                       capture_output=True, text=True)
-    if r.returncode != 0:
-        print(r.stdout + r.stderr)
-        raise SystemExit(3)
+    for out, pkg in ((binp, "./cmd/symx"), (gd, "./cmd/grammardump")):
+        r = subprocess.run(["go", "build", "-o", out, pkg], cwd=os.path.join(VERIF, "engine"), env=GOENV,
+                           capture_output=True, text=True)
+        if r.returncode != 0:
+            print(r.stdout + r.stderr)
+            raise SystemExit(3)
 
 
 def overlay_maps(files):
